@@ -1991,3 +1991,70 @@ def switches_on_var(fu, name):
 				f_t = [tb for v, tb in t[3] if v == 0]
 				out.append((bi, f_t[0] if f_t else None, t[4]))
 	return out
+
+# ---- accumulators returned at success exits ---------------------------------------------
+
+def accumulator_exits(fu, kinds=('alloc::vec::Vec<', 'HashMap<', 'VecDeque<', 'BTreeMap<')):
+	"""Functions that build a collection in a local L and return it inside the tuple of their success value at more than one exit.
+	Returns [(position, L, name, n_exits_returning_L, [(exit block, path from a mutation of L to that exit) for exits that return something
+	else at that position although L may already hold entries])]."""
+	live = fu.reach([0])
+	ex = Expr(fu)
+	def strip(e):
+		while e[0] in ('ref', 'deref'):
+			e = e[1]
+		return e
+	rets = []
+	for bi, si, st in fu.stmts():
+		rv = st[2]
+		if st[1] == [0] and rv[0] == 'agg' and bi in live:
+			if rv[1] == 'adt' and rv[3] in ('Ok', 'Some') and rv[4]:
+				e = ex.of_operand(rv[4][0])
+			elif rv[1] == 'tuple':
+				e = ex.of_rvalue(rv)
+			else:
+				continue
+			if e[0] == 'agg' and e[1] is None and len(e[3]) >= 2:
+				rets.append((bi, [strip(x) for x in e[3]]))
+	out = []
+	if len(rets) < 2 or len({len(r[1]) for r in rets}) != 1:
+		return out
+	for i in range(len(rets[0][1])):
+		for L in sorted({r[1][i][1] for r in rets if r[1][i][0] == 'local'}):
+			ty = fu.locals[L].get('ty') or ''
+			if L <= fu.argc or not any(ty.startswith(k) or (k in ty and not ty.startswith('&')) for k in kinds):
+				continue
+			# blocks that may add to L: a mutable borrow of L (push / extend / insert / a closure capturing it)
+			mut = set()
+			for bi, si, st in fu.stmts():
+				rv = st[2]
+				if rv[0] == 'ref' and rv[1] is True and rv[2] and rv[2][0] == L and bi in live:
+					mut.add(bi)
+			good = [r[0] for r in rets if r[1][i][0] == 'local' and r[1][i][1] == L]
+			lost = []
+			for r in rets:
+				if r[1][i][0] == 'local' and r[1][i][1] == L:
+					continue
+				p = fu.path(sorted(mut), [r[0]]) if mut else None
+				if p is not None:
+					lost.append((r[0], p))
+			out.append((i, L, fu.local_name(L), len(good), lost))
+	return out
+
+def P_accum_returned(facts, rule, fn, expect_names=None, min_instances=1):
+	"""what a function accumulated in a local collection is returned at every success exit: an exit returning something else in that
+	position must not be reachable from any point where the collection may already have received an entry"""
+	fu = facts.func(fn)
+	inst = accumulator_exits(fu)
+	short = facts.fn(fn).rsplit('::', 1)[-1]
+	out = []
+	if len(inst) < min_instances:
+		return [Result(rule, False, 'anchor:accumulator@' + short, '%s: expected >= %d collection(s) accumulated and returned at several exits, found %d' % (short, min_instances, len(inst)), len(inst), where=facts.where(fu.name))]
+	for pos, L, name, n_good, lost in inst:
+		ok = not lost
+		msg = '%s: the collection built in position %d of the result is returned at all %d exits that follow an insertion' % (short, pos, n_good)
+		if lost:
+			b, p = lost[0]
+			msg = '%s: an exit (line %s) returns something else in position %d of the result although entries may already have been added (path through lines %s) - they are silently dropped' % (short, fu.line_of(b), pos, fu.path_lines(p)[:8])
+		out.append(Result(rule, ok, ('ok:' if ok else 'dropped:') + 'accumulated-returned@%s:%d' % (short, pos), msg, n_good + len(lost), where=facts.where(fu.name, fu.line_of(lost[0][0]) if lost else None)))
+	return out
